@@ -10,6 +10,12 @@ from ..model import AnalysisError
 MAIN = 'python_minifier.__main__'
 
 
+def cmdline(label, argv):
+    if label.startswith('three files'):
+        return 'pyminify %s --in-place f1.py f2.py f3.py' % ' '.join(argv)
+    return 'pyminify %s mod.py' % ' '.join(argv)
+
+
 def run(model, rep):
     rep.explanation = ('main() of the command line module is evaluated by the abstract interpreter inside a modelled environment (pmstatic.clirun): a real '
                        'argparse parser of the standard library is driven by the calls the repository makes, the file system, stdin/stdout, the environment '
@@ -40,9 +46,9 @@ def run(model, rep):
         mine = [p for p in probs if p.clause in ('flags', 'payload', 'validation')]
         if mine:
             for p in mine[:3]:
-                rep.violation('C13.FLAGS', where, 'pyminify %s mod.py' % ' '.join(argv), p.text, key='C13.FLAGS|%s|%s' % (label, p.text[:60]))
+                rep.violation('C13.FLAGS', where, cmdline(label, argv), p.text, key='C13.FLAGS|%s|%s' % (label, p.text[:60]))
         else:
-            rep.ok('C13.FLAGS', where, 'pyminify %s mod.py' % ' '.join(argv), 'minify() receives the documented meaning of the flags and stdout its encoded answer', key='C13.FLAGS|' + label)
+            rep.ok('C13.FLAGS', where, cmdline(label, argv), 'minify() receives the documented meaning of the flags and stdout its encoded answer', key='C13.FLAGS|' + label)
     rep.floor('C13.FLAGS', 50)
 
     val = E.run_validation(model, rep.tier)
